@@ -152,6 +152,7 @@ let handle kind c =
     let flagged = Hashtbl.create 8 in
     let void_ready = Hashtbl.create 4 in
     let lock_holder = Hashtbl.create 4 in
+    let refused_final = Hashtbl.create 4 in   (* weeks the server did not accept from the final run *)
     let once cls d f = if not (Hashtbl.mem flagged (cls, d)) then (Hashtbl.replace flagged (cls, d) (); f cls d) in
     let witness_ever w =
       Hashtbl.mem ever_local ("local." ^ w ^ ".json") || Hashtbl.mem ever_local (w ^ ".json")
@@ -303,6 +304,7 @@ let handle kind c =
       (* C08 *)
       (match post, outc with
        | Some (w, b, f), Some o ->
+         if tid = nth - 1 && o <> O200 then Hashtbl.replace refused_final w ();
          if List.mem_assoc (w ^ ".json") !prev_up then
            once "resend_after_record" (Printf.sprintf "step %d: request for week %s while upload/%s.json exists" i w w) prop08;
          if o = O200 then begin
@@ -387,7 +389,8 @@ let handle kind c =
                 let w = string_of_bytes w in
                 let k = List.length (List.filter (fun (w', _) -> w' = w) !acks) in
                 (* a week whose upload marker pre-existed is (correctly) dropped without a request *)
-                if k = 0 && not (List.mem (w ^ ".json") init_up_names) then once "not_delivered" (Printf.sprintf "week %s (%s) uploadable at the quiescent point, never acknowledged" w n) prop08
+                (* ... and a week the server refused (5xx / no answer) in the final run is not the uploader's debt *)
+                if k = 0 && not (List.mem (w ^ ".json") init_up_names) && not (Hashtbl.mem refused_final w) then once "not_delivered" (Printf.sprintf "week %s (%s) uploadable at the quiescent point, never acknowledged" w n) prop08
               | None -> ()) ql
     end
   | k -> diff "unknown-case-kind" ~model:k ~impl:"-"
